@@ -86,13 +86,71 @@ def zmap_term(d):
     return lst([tup(zraw(k), zraw(v)) for k, v in d.items()])
 
 
+MID_LOCALS = ('smiles', 'edges', 'tokens', 'casted_cycles', 'visited', 'seen')
+
+
+def traced_smiles(m, wf, kw):
+    """m._smiles(wf, _return_order=True, **kw) with the local variables of _smiles at its return (sys.settrace on that one code
+    object; no line events)"""
+    import sys
+    code = type(m)._smiles.__code__
+    cap = {}
+
+    def local(frame, event, arg):
+        if event == 'return':
+            loc = frame.f_locals
+            for k in MID_LOCALS:
+                if k in loc:
+                    cap[k] = loc[k]
+        return local
+
+    def tracer(frame, event, arg):
+        if frame.f_code is code:
+            frame.f_trace_lines = False
+            return local
+        return None
+    old = sys.gettrace()
+    sys.settrace(tracer)
+    try:
+        strings, order = m._smiles(wf, _return_order=True, **kw)
+    finally:
+        sys.settrace(old)
+    return strings, order, cap
+
+
+def mid_term(mname, wname, spec, ob):
+    """wmid case of a connected molecule, or None"""
+    cap = ob.get('mid')
+    if not cap or any(k not in cap for k in MID_LOCALS) or '.' in ob['strings']:
+        return None
+
+    def tk(x):
+        if isinstance(x, int):
+            return f'A{x}'
+        if isinstance(x, tuple):
+            return f'B{x[0]}.{x[1]}'
+        return x
+    smi = ','.join(tk(x) for x in cap['smiles'])
+    edges = ','.join(f'{p}:{".".join(map(str, c))}' for p, c in cap['edges'].items())
+    # the cycle identifiers (the counter `cycle`) depend on the order in which equal-key neighbours are met (set / dict iteration
+    # order; the model has the written order as tie-break, which fixes the tree and the numbers but not the identifiers): compared
+    # with the identifier replaced by its number, atoms sorted
+    cc = cap['casted_cycles']
+    tokens = ','.join(f'{a}:{".".join(f"{x}/{cc[c]}" for x, c in cap["tokens"][a])}' for a in sorted(cap['tokens']))
+    casted = '.'.join(map(str, sorted(cc.values())))
+    visited = ','.join(f'{a}:{".".join(map(str, v))}' for a, v in cap['visited'].items() if a != 'cache')   # 'cache': the ct_map
+    seen = ','.join(f'{a}:{d}' for a, d in sorted(cap['seen'].items()))
+    return (f'wmid {mname} {wname} {cs(spec)} {lst(ob["order"], zraw)} {cs(smi)} {cs(edges)} {cs(tokens)} {cs(casted)} '
+            f'{cs(visited)} {cs(seen)}')
+
+
 def observe(m, spec, seed):
     """run the real writer: returns dict(strings, order, text, w) ; the three calls see the same random numbers"""
     kw = kwargs_of(spec)
     if 'r' in spec:
         w = {n: 0 for n in m._atoms}
         random.seed(seed)
-        strings, order = m._smiles(lambda _: random.random(), _return_order=True, **kw)
+        strings, order, mid = traced_smiles(m, lambda _: random.random(), kw)
         random.seed(seed)
         text = format(m, spec)
         random.seed(seed)
@@ -103,13 +161,13 @@ def observe(m, spec, seed):
     else:
         wf = m._smiles_order('!s' not in spec)
         w = {n: wf(n) for n in m._atoms}
-        strings, order = m._smiles(wf, _return_order=True, **kw)
+        strings, order, mid = traced_smiles(m, wf, kw)
         text = format(m, spec)
         if spec:
             joined, order2 = m.__format__(spec, _return_order=True)
         else:
             joined, order2 = ''.join(strings), list(m.smiles_atoms_order)
-    return {'strings': list(strings), 'order': list(order), 'text': text, 'w': w, 'joined': joined, 'order2': list(order2)}
+    return {'strings': list(strings), 'order': list(order), 'text': text, 'w': w, 'joined': joined, 'order2': list(order2), 'mid': mid}
 
 
 
@@ -158,6 +216,49 @@ Definition wcase_full (g : mol) (w : list (Z * Z)) (spec : string) (tabs : stabs
       String.eqb txt (scat [scat ss; suffix])
   | _, _ => false
   end.
+(* intermediate states of Smiles._smiles for a connected molecule (extension round 3): the local variables at its return -
+   `smiles` (the flattened list), `edges`, `tokens` (sorted by number; cycle identifier replaced by its number), the numbers of `casted_cycles`, `visited` (with the neighbour order for the
+   stereo signs), `seen` (BFS labels) - against traverse / flatten / number_atoms / order_neighbours of the model: the values the
+   theorems C02_flatten_*, C02_traverse_*, C02_closure_numbers_*, C02_written_*_parsed quantify over *)
+Definition show_zl (l : list Z) : string := String.concat "." (map str_Z l).
+Definition show_tok (t : tok) : string :=
+  match t with
+  | TAtom n => scat ["A"%string; str_Z n]
+  | TOpen => "("%string
+  | TClose => ")"%string
+  | TBond p c => scat ["B"%string; str_Z p; "."%string; str_Z c]
+  end.
+Definition show_adj (l : list (Z * list Z)) : string :=
+  String.concat "," (map (fun kv => scat [str_Z (fst kv); ":"%string; show_zl (snd kv)]) l).
+Definition show_pairs (l : list (Z * Z)) : string :=
+  String.concat "," (map (fun kv => scat [str_Z (fst kv); ":"%string; str_Z (snd kv)]) l).
+Definition show_tokens (l : list (Z * list (Z * Z))) : string :=
+  String.concat "," (map (fun kv => scat [str_Z (fst kv); ":"%string;
+     String.concat "." (map (fun mc : Z * Z => scat [str_Z (fst mc); "/"%string; str_Z (snd mc)]) (snd kv))]) l).
+Definition wmid (g : mol) (w : list (Z * Z)) (spec : string) (order : list Z)
+                (smi edges tokens casted visited seen : string) : bool :=
+  let o := opts_of_spec spec in
+  match traverse g (wfun w) (tbfun order) o (ids g) (init_state g) with
+  | Ok t =>
+      match flatten g t with
+      | Ok s =>
+          let d := tr_dfs t in
+          let ro := ring_positions (ds_tokens d) s 0 in
+          match number_atoms (ds_tokens d) ro ro [] (zrange heap_lo heap_hi) with
+          | Ok (cst, _) =>
+              let '(tk, vis) := order_neighbours s cst (ds_edges d) (ds_tokens d) (ds_visited d) in
+              String.eqb (String.concat "," (map show_tok s)) smi && String.eqb (show_adj (ds_edges d)) edges &&
+              String.eqb (show_tokens (sort_by (fun kv : Z * list (Z * Z) => [fst kv])
+                                        (map (fun kv : Z * list (Z * Z) => (fst kv, map (fun mc : Z * Z => (fst mc, casted_of cst (snd mc))) (snd kv))) tk)))
+                         tokens &&
+              String.eqb (show_zl (sort_by (fun k : Z => [k]) (map snd cst))) casted && String.eqb (show_adj vis) visited &&
+              String.eqb (show_pairs (sort_by (fun kv : Z * Z => [fst kv]) (tr_seen t))) seen
+          | Err _ => false
+          end
+      | Err _ => false
+      end
+  | Err _ => false
+  end.
 Definition wcase_err (g : mol) (spec : string) (e : pyexn) : bool :=
   match smiles_text g (fun _ => 0) (fun _ => 0) (opts_of_spec spec) no_stabs with Err e' => pyexn_eqb e e' | Ok _ => false end.
 Definition tkcase (s : string) (r : pyres (list rtok)) : bool := pyres_eqb (list_eqb rtok_eqb) (tokenize s) r.
@@ -171,10 +272,10 @@ def observe_custom(m, w, spec):
     writer and sticky_smiles use it this way), text assembled as __format__ does"""
     kw = kwargs_of(spec)
     kw.pop('random', None)
-    strings, order = m._smiles(w.__getitem__, _return_order=True, **kw)
+    strings, order, mid = traced_smiles(m, w.__getitem__, kw)
     cx = None if '!x' in spec else m._format_cxsmiles(order)
     joined = ''.join(strings)
-    return {'strings': list(strings), 'order': list(order), 'text': joined + (' ' + cx if cx else ''), 'w': dict(w), 'joined': joined,
+    return {'strings': list(strings), 'order': list(order), 'text': joined + (' ' + cx if cx else ''), 'w': dict(w), 'joined': joined, 'mid': mid,
             'order2': list(order)}
 
 
@@ -438,6 +539,7 @@ def corr_writer(ck, mols):
     defs, cases, meta, size = [], [], [], 0
     api_ok = True
     n_cases = 0
+    n_mid = 0
 
     def close():
         nonlocal defs, cases, meta, size
@@ -478,6 +580,13 @@ def corr_writer(ck, mols):
             local.append(case_term(f'm{i}', wdone[wkey], f't{i}', spec, ob, full=(n_cases % 16 == 0), ev=(n_cases % 4 == 1), m=m))
             meta.append((name, m, spec, ob['text']))
             WRITTEN_TEXTS.append(ob['text'])
+            if n_cases % 3 == 2 or name in CLOSURE_HEAVY:
+                mt2 = mid_term(f'm{i}', wdone[wkey], spec, ob)
+                if mt2 is not None:
+                    local.append(mt2)
+                    meta.append((name, m, f'intermediate states, spec={spec}', ob['text']))
+                    ck.count('writer:intermediate-states')
+                    n_mid += 1
             n_cases += 1
             feats = mol_features(m)
             ck.case(('writer', name, spec, ob['text']), nontrivial=len(m) > 2)
@@ -501,6 +610,12 @@ def corr_writer(ck, mols):
                 local.append(case_term(f'm{i}', wn, f't{i}', spec, ob, ev=name in CLOSURE_HEAVY, m=m))
                 meta.append((name, m, f'weights={rname} {spec}', ob['text']))
                 WRITTEN_TEXTS.append(ob['text'])
+                mt2 = mid_term(f'm{i}', wn, spec, ob)
+                if mt2 is not None:
+                    local.append(mt2)
+                    meta.append((name, m, f'intermediate states, weights={rname} {spec}', ob['text']))
+                    ck.count('writer:intermediate-states')
+                    n_mid += 1
                 n_cases += 1
                 ck.case(('writer-custom', name, rname, spec, ob['text']), nontrivial=len(m) > 2)
                 ck.count('writer:custom-weights=' + rname)
@@ -530,9 +645,12 @@ def corr_writer(ck, mols):
     ok, failing, log = run_shards('c02w', shards)
     bad = [metas[k][i] for k, i in failing]
     ck.extra['writer_correspondence_cases'] = sum(len(c) for _, c in shards)
+    ck.extra['writer_intermediate_state_cases'] = n_mid
     ck.oblige('correspondence: Smiles._smiles / format(mol, spec) / str(mol) / smiles_atoms_order == Writer.smiles_tokens '
               '(real weights, observed order as tie-break); every output accepted by the token-stream checker (stream_ok), '
-              'closure lists of every 4th case satisfy wf_events', ok and not bad and api_ok, 'correspondence',
+              'closure lists of every 4th case satisfy wf_events; for every 3rd case of a connected molecule also the local variables '
+              'of _smiles at its return (smiles, edges, tokens, casted_cycles, visited, seen) == traverse / flatten / number_atoms / '
+              'order_neighbours of the model', ok and not bad and api_ok, 'correspondence',
               log or '; '.join(f'{n} spec={s!r} text={t!r}' for n, _, s, t in bad[:8]))
     if shards:
         ck.sample({'writer_case': shards[0][1][0][:600]})
@@ -1290,7 +1408,7 @@ def directed_search(ck, bad_writer, bad_reader, mols):
 
 
 def run(ck):
-    ck.trusted += ['translators tools/gen_smiles_tables.py (Python ast: charge_str, organic_set, B C N P S, heap bounds, _format_closure body, '
+    ck.trusted += ['translators tools/gen_smiles_tables.py, tools/gen_smiles_more.py (Python ast: charge_str, organic_set, B C N P S, heap bounds, _format_closure body, '
                    'replace_dict, charge_dict, character classes of _tokenize, aromatic symbols and atom_re text), tools/gen_elements.py, tools/gen_stereo.py',
                    'correspondence runner harness/checks/C02.py + harness/coqcases.py + harness/coqmol.py',
                    'CachedMethods shim harness/boot.py', 'CPython 3.12.1', 'RDKit 2026.3 (search only)']
